@@ -15,7 +15,7 @@ from .. import nf
 from ..model import AnalysisError
 from ..values import BoolV, ExtObj, Inst, Num, TupV, Vec
 from .c01 import _step
-from .c10 import FAMILY, method_paths
+from .c10 import FAMILY, cache_attribute, method_paths
 from .common import QUADRATURE, RES, interp, returns
 from .reservoir import SIM_CLASSES, rows_of
 
@@ -213,6 +213,7 @@ def check(ctx):
     # ---- C17-e interpolator contract
     for cls in SIM_CLASSES:
         it4, m, paths = method_paths(ctx, cls, "recovery_factor_interpolator")
+        cache_attr = cache_attribute(ctx) or "recovery"
         n = 0
         for p in returns(paths):
             v = p.value
@@ -227,8 +228,8 @@ def check(ctx):
                 if x != nf.sym("self.time"):
                     probs.append("abscissa is " + nf.show(x, 80))
                 ynf = it4.to_nf(y)
-                cached = ynf == nf.sym("self.recovery")
-                computed = any(e.kind == "store_attr" and e.data["attr"] == "recovery" and it4.to_nf(e.data["value"]) == ynf for e in p.events)
+                cached = ynf == nf.sym("self." + cache_attr)
+                computed = any(e.kind == "store_attr" and e.data["attr"] == cache_attr and it4.to_nf(e.data["value"]) == ynf for e in p.events)
                 if not (cached or computed):
                     probs.append("ordinate is not the (cached or freshly computed) recovery: " + nf.show(ynf, 100))
                 be = a.get("bounds_error")
